@@ -34,7 +34,7 @@ Record vrec := mkRec { r_pos : Z; r_snv : bool; r_nalts : nat; r_call : call }.
    to its repaired form. *)
 Record rules := mkRules {
   skip_missing_gt : bool;   (* false: `./.`, `0/.` fall through `genotype.is_homozygous()` and are counted heterozygous (F4) *)
-  ps_missing_zero : bool    (* false: phased call with PS="." gets block_id None *)
+  ps_missing_unphased : bool (* false: a phased call with PS="." (block_id None) is put into a block named None *)
 }.
 Definition legacy_rules := mkRules false false.
 Definition repaired_rules := mkRules true true.
@@ -74,7 +74,7 @@ Definition raw_het (gt : option (list (option Z))) : bool :=
   | _ => false
   end.
 
-Definition extract_phase (R : rules) (c : call) : option key :=
+Definition extract_phase (c : call) : option key :=
   match c_hp c with
   | Some b => Some (Some b)                                   (* _extract_HP_phase, tried first *)
   | None =>
@@ -82,7 +82,7 @@ Definition extract_phase (R : rules) (c : call) : option key :=
         Some (match c_ps c with
               | PSVal z => Some z
               | PSAbsent => Some 0                            (* call.get("PS", 0) *)
-              | PSMissing => if ps_missing_zero R then Some 0 else None
+              | PSMissing => None                             (* PS present but ".": block_id None *)
               end)
       else None
   end.
@@ -90,8 +90,8 @@ Definition extract_phase (R : rules) (c : call) : option key :=
 (* ------------------------------------------------------------------------------------------ *)
 (* vcf.py: VcfReader._process_single_chromosome (mav=False)                                   *)
 Record trow := mkRow { t_pos : Z; t_snv : bool; t_gt : list Z; t_phase : option key }.
-Definition row_of (R : rules) (r : vrec) : trow :=
-  mkRow (r_pos r) (r_snv r) (genotype_code (c_gt (r_call r))) (extract_phase R (r_call r)).
+Definition row_of (r : vrec) : trow :=
+  mkRow (r_pos r) (r_snv r) (genotype_code (c_gt (r_call r))) (extract_phase (r_call r)).
 
 Inductive decision := DSkip | DError | DKeep.
 Definition reader_decision (only_snvs : bool) (prev : option Z) (r : vrec) : decision :=
@@ -104,15 +104,15 @@ Definition reader_decision (only_snvs : bool) (prev : option Z) (r : vrec) : dec
                    else DKeep
        end.
 
-Fixpoint read_rows (R : rules) (only_snvs : bool) (prev : option Z) (recs : list vrec) : option (list trow) :=
+Fixpoint read_rows (only_snvs : bool) (prev : option Z) (recs : list vrec) : option (list trow) :=
   match recs with
   | [] => Some []
   | r :: rest =>
       match reader_decision only_snvs prev r with
-      | DSkip => read_rows R only_snvs prev rest
+      | DSkip => read_rows only_snvs prev rest
       | DError => None
-      | DKeep => match read_rows R only_snvs (Some (r_pos r)) rest with
-                 | Some t => Some (row_of R r :: t)
+      | DKeep => match read_rows only_snvs (Some (r_pos r)) rest with
+                 | Some t => Some (row_of r :: t)
                  | None => None
                  end
       end
@@ -284,6 +284,13 @@ Definition gtf_step (pos : Z) (k : key) (prev : gtfblock) (out : list (Z * Z * Z
       else (mkGB pos (pos + 1) k, out ++ [(gb_start prev + 1, gb_end prev, pid)])
   end.
 
+(* `if phase is None:` in the code as found; `if phase is None or phase.block_id is None:` repaired *)
+Definition eff_phase (R : rules) (row : trow) : option key :=
+  match t_phase row with
+  | Some None => if ps_missing_unphased R then None else Some None
+  | x => x
+  end.
+
 Definition gpb_step (R : rules) (s : gstate) (row : trow) : gstate :=
   let v1 := g_variants s + 1 in
   if is_homozygous (t_gt row) then
@@ -293,7 +300,7 @@ Definition gpb_step (R : rules) (s : gstate) (row : trow) : gstate :=
   else
     let h := g_het s + 1 in
     let hs := if t_snv row then g_hetsnv s + 1 else g_hetsnv s in
-    match t_phase row with
+    match eff_phase R row with
     | None => mkG v1 h hs (g_unph s + 1) (g_blocks s) (g_prev s) (g_gtf s)
     | Some k =>
         let pg := gtf_step (t_pos row) k (g_prev s) (g_gtf s) in
@@ -374,7 +381,7 @@ Fixpoint run_loop (R : rules) (only_snvs : bool) (chrlen : Z -> option Z) (given
   | [] => finish chrlen seen total rows bl gtf
   | (cid, None) :: _ => None
   | (cid, Some recs) :: rest =>
-      match read_rows R only_snvs None recs with
+      match read_rows only_snvs None recs with
       | None => None
       | Some trows =>
           let seen' := cid :: seen in
@@ -474,11 +481,14 @@ Definition spec_het (c : call) : bool :=
               | Some g => existsb (fun a => existsb (fun b => negb (a =? b)) g) g
               end
   end.
-(* the phase set a call belongs to: the HP block, else for a `|` genotype its PS (0 when there is none) *)
+(* the phase set a call belongs to: the HP block, else for a `|` genotype its PS value, 0 when the record
+   has no PS key at all (whole-chromosome phasing without phase sets); a `|` genotype whose PS is "."
+   names no phase set and counts as unphased *)
 Definition spec_phase_set (c : call) : option Z :=
   match c_hp c with
   | Some b => Some b
-  | None => if c_phased c then Some (match c_ps c with PSVal z => z | _ => 0 end) else None
+  | None => if c_phased c then match c_ps c with PSVal z => Some z | PSAbsent => Some 0 | PSMissing => None end
+            else None
   end.
 
 Definition hets (cs : list vrec) : list vrec := filter (fun r => spec_het (r_call r)) cs.
